@@ -98,6 +98,12 @@ THEOREMS = [
 ]
 CASE_TIMEOUT = 20
 
+# notes/C19_defect_2.md: a directory or file name that contains ".tex" / ".pdf" makes LaTeXToPDF / PDFToPNG name
+# files that do not exist.  The cases that show it are generated only when this is True (set it after the patch
+# notes/C19_defect_2.patch is applied and pdfPathOf / pngPathOf of the model are adapted; until then the failing
+# input is notes/C19_defect_2_replay.json: `./check C19 --replay notes/C19_defect_2_replay.json`).
+INNER_EXTENSION_CASES = False
+
 KNOWN_SIG = "stale-pdf:run-starts-with-missing-source-while-pdf-exists"
 KNOWN_TAG = "known-class stale artefact"
 
@@ -1636,6 +1642,11 @@ def _base_histories(ctx):
         for datas in itertools.product((1, 2), repeat=n):
             for tpl in (1, 2):
                 yield {"op": "hist", "steps": [f0, _run_step(cfg, layout, tpl, list(datas))]}
+    if INNER_EXTENSION_CASES:
+        for cfg in (_cfg(mf=dict(STD_MF, dirname=["a.tex.d"])), _cfg(mf=dict(STD_MF, filename=["x.pdf_", None]))):
+            for pdflatex in (True, False):
+                yield {"op": "hist", "pdflatex": pdflatex,
+                       "steps": [_run_step(cfg, "separate", 1, [1]), _run_step(cfg, "separate", 1, [2])]}
     if not thorough:
         for _ in range(500):
             yield {"op": "hist", "steps": [first, rng.choice(alpha1), rng.choice(alpha1)]}
@@ -1775,6 +1786,10 @@ TRUSTED = [
     "stub converters (in-process stand-in for subprocess inside the two lena modules; real sh scripts on a sample) and "
     "the logical clock the harness puts on modification times between runs",
     "posixpath.join / isabs / str.replace as transcribed (pjoin, isAbs, strReplace), validated by the wmf/latex/png cases",
+    "the specification-side definitions of the theorems (Model/C19Spec.lean: plotUnit, memberNamed, groupTexPath, "
+    "sepCore, grpCore, sourceClosedB, unitFreshB, effective) are executed by the driver on every run of every history and "
+    "compared with an independent Python evaluation on the real file system (file names, SourceClosed, freshness) and "
+    "with the world of the element-by-element model (specRun); sourceClosedB_iff / unitFreshB_iff tie them to the Props",
     "JSON line protocol encoders (harness/props/c19.py, drivers/C19.lean)",
 ]
 ASSUMPTIONS = [
@@ -1806,7 +1821,10 @@ RULE = ("stage cases (exhaustive small scopes): MakeFilename arguments x name x 
         "enumerates all 4096 histories of three runs of one plot (standard options) and samples 130 000 more (four runs, "
         "groups, option settings, random); every history whose runs share their options is run "
         "twice: with new pipeline objects for every run and with ONE Sequence object re-used for all runs (template "
-        "file edited in place, same size, modification time bumped explicitly); real sh-script converters on a "
+        "file edited in place, same size, modification time bumped explicitly); further kinds: plain values through the group pipeline (MapGroup "
+        "scalars), several plots sharing one file name (model comparison only), the output directory removed between "
+        "runs, Ctrl-C during LaTeXToPDF's wait followed by re-use of the object, MakeFilename(overwrite=True), the default "
+        "pdflatex command (stub binary); real sh-script converters on a "
         "sample.  Non-trivial: a history of at least two completed runs.")
 LEVEL_TEXT = ("Lean 4 theorems about a transcribed model of the output pipeline over an abstract file system, for all "
               "converters, pre-states satisfying the stated invariant, data, templates, numbers of plots and option "
